@@ -24,14 +24,14 @@ def tla_seq(x):
     return f'"{x}"'
 
 
-def exec_mc(name, scripts, maxc, mins, tolc, tolp, invs, props=(), spec="Spec", fixes=None, tfail=False, reset_first=True,
+def exec_mc(name, scripts, maxc, mins, tolc, tolp, invs, props=(), spec="Spec", fixes=None, tfail=False, reset_first=True, lag=False,
             atomic_cb=None, pre=(), ancestor_walk=None, resubmit_under_lock=None, step_guard=None):
     fixes = fixes or (VARIANT.get("FixOrphanParent", False), VARIANT.get("FixBteBranch", False), VARIANT.get("FixEmpty", False))
     wd = work_dir(name)
     mod = f"MC_{name}"
     with open(os.path.join(wd, mod + ".tla"), "w") as f:
         f.write(f"---- MODULE {mod} ----\nEXTENDS Executor\n"
-                f"CfDef == [script |-> {tla_seq(scripts)}, maxc |-> {maxc}, mins |-> {mins}, tolc |-> {tolc}, tolp |-> {tolp}, tfail |-> {'TRUE' if tfail else 'FALSE'}, pre |-> <<{', '.join(str(x) for x in pre)}>>]\n"
+                f"CfDef == [script |-> {tla_seq(scripts)}, maxc |-> {maxc}, mins |-> {mins}, tolc |-> {tolc}, tolp |-> {tolp}, tfail |-> {'TRUE' if tfail else 'FALSE'}, lag |-> {'TRUE' if lag else 'FALSE'}, pre |-> <<{', '.join(str(x) for x in pre)}>>]\n"
                 f"MCInit == cf = CfDef /\\ Init\n"
                 f"MCSpec == MCInit /\\ [][NextC]_<<vars, cf>>\n"
                 f"MCFairSpec == MCSpec /\\ WF_vars(MainStep)"
@@ -56,7 +56,7 @@ STRICT = {"C09": ["ConcurrencyBound", "ReturnsOnlyWhenDecided", "NoSuspendWhenDe
           "C06": ["NoHang"]}
 
 
-def executor_sweep(ctx, invs, *, tag, scripts_sets=None, configs=None, liveness=False, budget=None, tfail=False, pre=()):
+def executor_sweep(ctx, invs, *, tag, scripts_sets=None, configs=None, liveness=False, budget=None, tfail=False, pre=(), lag=False):
     """TLC over a family of (scripts, max_concurrency, completion config)."""
     scripts_sets = scripts_sets or [
         [["step", "ok"], ["step", "step", "ok"], ["fail"]],
@@ -76,11 +76,11 @@ def executor_sweep(ctx, invs, *, tag, scripts_sets=None, configs=None, liveness=
                 continue
             name = f"{tag}_{si}_{ci}"
             mod, cfg = exec_mc(name, scripts, maxc, mins, tolc, tolp, invs,
-                               props=(["EventuallyReturns"] if liveness else []), spec="FairSpec" if liveness else "Spec", tfail=tfail, pre=pre)
+                               props=(["EventuallyReturns"] if liveness else []), spec="FairSpec" if liveness else "Spec", tfail=tfail, pre=pre, lag=lag)
             res = run_tlc(mod, cfg, name, timeout_s=900)
             require_ok(res, f"Executor.tla {name}")
             ctx.add_tlc(res, f"Executor.tla exhaustive: scripts={scripts} maxc={maxc or None} min={mins or None} "
-                             f"tolc={None if tolc == NONEC else tolc} tolp={None if tolp == NONEP else tolp}" + (" refresh-may-fail" if tfail else "") + (f" pre-existing-branch-contexts={list(pre)}" if pre else ""), exhaustive=True)
+                             f"tolc={None if tolc == NONEC else tolc} tolp={None if tolp == NONEP else tolp}" + (" refresh-may-fail" if tfail else "") + (" late-backend-timers" if lag else "") + (f" pre-existing-branch-contexts={list(pre)}" if pre else ""), exhaustive=True)
             if not res.ok:
                 ctx.violation(f"model-{res.violated}", f"TLC: {res.violated} violated (scripts={scripts}, cfg={(maxc, mins, tolc, tolp)})",
                               {"kind": "tlc", "trace": [(a.split(' line')[0], s[:900]) for a, s in res.trace[-8:]]})
@@ -177,6 +177,23 @@ CURATED_CONC = {
     "m18_invoke_in_branch": {"nodes": [{"k": "par", "branches": [[{"k": "invoke", "caught": True}, {"k": "step"}], [{"k": "step"}]]}, {"k": "step"}]},
     "m19_invoke_and_wait": {"nodes": [{"k": "map", "branches": [[{"k": "invoke", "caught": True}], [{"k": "wait", "s": 1}, {"k": "step"}],
                                                                  [{"k": "step", "dur": 0.4}]]}, {"k": "wait"}]},
+    # re-invocation with the surviving branch working two levels below the call (inside a child context of the branch)
+    "m20_reinvoke_nested_straggler": {"nodes": [{"k": "par", "cfg": {"min": 1},
+                                                 "branches": [[{"k": "wait", "s": 1}, {"k": "step"}],
+                                                              [{"k": "wait", "s": 1},
+                                                               {"k": "child", "body": [{"k": "step", "dur": 0.5}, {"k": "step"}, {"k": "step"}]}]]},
+                                                {"k": "step", "dur": 1.5}, {"k": "step"}]},
+    # an oversized call (recorded as a summary, rebuilt from its children on replay) that completed early while a branch was still
+    # working; the call is replayed in a later invocation: the unfinished branch stays unfinished
+    "m21_oversized_early_straggler": {"nodes": [{"k": "par", "explicit_cfg": True, "large_items": [0], "cfg": {"min": 1},
+                                                 "branches": [[{"k": "step"}], [{"k": "step", "dur": 0.6}, {"k": "step"}, {"k": "step"}]]},
+                                                {"k": "step", "dur": 1.5}, {"k": "wait"}, {"k": "step"}]},
+    "m22_oversized_early_parked": {"nodes": [{"k": "map", "explicit_cfg": True, "large_items": [1], "cfg": {"min": 1},
+                                              "branches": [[{"k": "wait", "s": 30}, {"k": "step"}], [{"k": "step"}]]},
+                                             {"k": "wait"}, {"k": "step"}, {"k": "wait", "s": 40}, {"k": "step"}]},
+    "m23_oversized_early_failing_straggler": {"nodes": [{"k": "par", "explicit_cfg": True, "large_items": [0], "cfg": {"min": 1}, "caught": True,
+                                                         "branches": [[{"k": "step"}], [{"k": "step", "dur": 0.6}, {"k": "step", "fail": -1, "max": 1}]]},
+                                                        {"k": "step", "dur": 1.5}, {"k": "wait"}, {"k": "step"}]},
     "m11_tolerance": {"nodes": [{"k": "map", "caught": True, "cfg": {"tolc": 1}, "braise": [0, 2], "branches": [[], [{"k": "step", "dur": 0.3}], [], [{"k": "step"}]]}]},
 }
 
@@ -191,6 +208,9 @@ def conc_scenario(rng, prog, gates=True):
     sc["api_latency"] = rng.choice([0.0, 0.0, 0.05, 0.3])
     if rng.random() < 0.3:
         sc["paging"] = "random"
+    r2 = random.Random(sc["seed"] ^ 0x5A17)     # derived generator: the draws of the scenarios that follow are unchanged
+    if r2.random() < 0.3:
+        sc["timer_lag"] = r2.choice([0.2, 0.4, 3.0, 45.0])      # the backend fires its timers late
     return sc
 
 
@@ -268,7 +288,8 @@ def classify_batch_divergence(first_rep, later_rep):
         return None
     if all(x["status"] == "STARTED" and y["status"] in ("SUCCEEDED", "FAILED") for x, y in diff):
         return "replay-children-straggler"
-    if all(x["status"] == y["status"] == "FAILED" and x["result"] == y["result"] for x, y in diff):
+    if a[0] == b[0] and all(x["status"] == y["status"] == "FAILED" and x["result"] == y["result"] for x, y in diff):
+        # (the statuses are unchanged, so the completion reason must be unchanged too: a different reason is another defect)
         # same failure, but the error object differs (first run: exception raised by the child handler, i.e. CallableRuntimeError;
         # rebuilt: the error recorded for the child context, i.e. the original exception type)
         return "replay-children-error-type"
@@ -356,6 +377,36 @@ def c09(ctx, e):
                         act.discard(ev["path"])
                 if worst > maxc:
                     ctx.violation("concurrency-limit-exceeded", f"{path}: {worst} branches at once, limit {maxc}", scen_of(e))
+                    return
+
+
+def batch_items_own_outcome(ctx, e):
+    """EVERY delivery of a map / parallel result (first run and every replay, summarised or not): an item reported SUCCEEDED carries
+    a value that branch itself returned, an item reported FAILED or STARTED carries no result, a STARTED item no error"""
+    nodes = node_index(e.prog)
+    for path, node in nodes.items():
+        if node.get("k") not in ("map", "par"):
+            continue
+        for (inv, kind, rep) in e.rec.delivered.get(path, []):
+            if kind != "value":
+                continue
+            pb = parse_batch(rep)
+            if pb is None:
+                continue
+            for it in pb[1]:
+                bpath = f"{path}/b{it['index']}"
+                oks = {o[2] for o in e.rec.branch_out.get(bpath, []) if o[1] == "ok"}
+                if it["status"] == "SUCCEEDED" and it["result"] not in oks:
+                    ctx.violation("item-not-own-outcome", f"invocation {inv}: {bpath} reported SUCCEEDED with {it['result'][:60]}, which that "
+                                  f"branch never returned", scen_of(e))
+                    return
+                if it["status"] in ("FAILED", "STARTED") and it["result"] != "None":
+                    ctx.violation("item-not-own-outcome", f"invocation {inv}: {bpath} reported {it['status']} but carries the result "
+                                  f"{it['result'][:60]}", scen_of(e))
+                    return
+                if it["status"] in ("SUCCEEDED", "STARTED") and it["error"] != "None":
+                    ctx.violation("item-not-own-outcome", f"invocation {inv}: {bpath} reported {it['status']} but carries the error "
+                                  f"{it['error'][:60]}", scen_of(e))
                     return
 
 
@@ -470,12 +521,14 @@ def c10_no_function_under_completed_context(ctx, e):
         done_pos = {}        # context id -> position of the (accepted) put of its SUCCEED / FAIL
         puts = {}            # operation id -> positions of its accepted puts / passed orphan checks
         checked = {}         # operation id -> positions at which an orphan check for it passed (update accepted or explicit check)
+        explicit = {}        # operation id -> positions of its explicit checks (ensure_not_orphaned)
         last_body_start = {}  # thread -> position of the BodyStart that began the traversal the thread is in
         for k, x in enumerate(r.events):
             if x["ev"] == "BodyStart":
                 last_body_start[x.get("th")] = k
             if x["ev"] == "OrphanCheck":
                 checked.setdefault(x["id"], []).append(k)
+                explicit.setdefault(x["id"], []).append(k)
             if x["ev"] == "Ckpt" and not x.get("rejected"):
                 checked.setdefault(x["id"], []).append(k)
                 puts.setdefault(x["id"], []).append(k)
@@ -497,8 +550,10 @@ def c10_no_function_under_completed_context(ctx, e):
                         # orphaned yet when its durable operation began (the function of an operation in progress may still run)
                         # (only checks made in the CURRENT traversal of the branch count: after the BodyStart of this thread)
                         since = last_body_start.get(x.get("th"), -1)
-                        if any(since < p < done_pos[aid] for p in checked.get(oid, [])) \
-                                and not any(p > done_pos[aid] for p in puts.get(oid, [])):
+                        # a step asks explicitly right before its function (ensure_not_orphaned): only that check counts for it - a
+                        # START accepted earlier does not, the branch may have been orphaned while it waited for the START's answer
+                        ev_ok = explicit.get(oid, []) if x.get("kind") == "step" else checked.get(oid, [])
+                        if any(since < p < done_pos[aid] for p in ev_ok) and not any(p > done_pos[aid] for p in puts.get(oid, [])):
                             break
                         # the known check-then-put race: the operation's own START slipped behind the completion record
                         raced = any(p > done_pos[aid] for p in puts.get(oid, []))
@@ -543,6 +598,29 @@ def c08(ctx, e):
         key = (nm, u["parent"])
         if seen.setdefault(key, u["id"]) != u["id"]:
             ctx.violation("id-unstable", f"position {nm} recorded under two ids", scen_of(e))
+            return
+    # the same judged from the program instead of the recorded names: every position the program can reach has a known id; every
+    # update recorded under that id must carry the enclosing context's id as parent (and the position's name)
+    from checks.oracles import node_index
+    by_id = {}
+    for pth in node_index(e.prog):
+        try:
+            by_id[path_id(pth)] = pth
+        except Exception:  # noqa: BLE001
+            continue
+    for u in e.backend.stream:
+        pth = by_id.get(u["id"])
+        if pth is None or u["type"] == "EXECUTION":
+            continue
+        par = pth.rsplit("/", 1)[0] if "/" in pth else None
+        exp_parent = path_id(par) if par else None
+        if (u["parent"] or None) != exp_parent:
+            ctx.violation("parent-link-wrong", f"{u['action']} of the operation at position {pth} ({u['type']}): parent "
+                                               f"{str(u['parent'])[:14]}.., expected {str(exp_parent)[:10]}..", scen_of(e))
+            return
+        if (u["name"] or "") != pth and not (u["name"] or "").endswith((" submitter", " create callback id")):
+            ctx.violation("name-not-carried", f"{u['action']} of the operation at position {pth} ({u['type']}) carries the name "
+                                              f"{str(u['name'])[:20]!r}", scen_of(e))
             return
     ids = {}
     for u in e.backend.stream:
